@@ -22,7 +22,8 @@ CONSTANTS MinN, MaxN,   \* graphs on nodes 1..nn for nn \in MinN..MaxN
           Directed,     \* BOOLEAN
           WCodes,       \* set of naturals; the weight of code c is c - WOff
           WOff,
-          Mode,         \* "all": every graph; "sample": NSamples pseudo-random graphs on MaxN nodes
+          Mode,         \* "all": every graph; "sample": NSamples pseudo-random graphs on MaxN nodes;
+                        \* "ties": the tie-rich layered family (WCodes must hold 1, 2 and 5)
           Seed, NSamples,
           Shard, NShards,
           Emit          \* BOOLEAN: generator role
@@ -105,7 +106,44 @@ DigitSum(d) == LET RECURSIVE S(_)
                    S(j) == IF j = 0 THEN 0 ELSE d[j] * j + S(j - 1)
                IN S(Len(d))
 
-Init == IF Mode = "all"
+(************************** the tie-rich family (Mode = "ties") *************)
+\* Layered graphs in which one source has many equally good first steps towards two targets that
+\* share a hub (the all-pairs routines keep LISTS of alternatives per pair, and a target reached
+\* through the hub inherits the hub's list before it gains alternatives of its own):
+\*   s -> a_1 .. a_nm -> hub -> t_1, t_2        every edge 1: weight 3, nm routes per target
+\*   s -> x_i -> t_j                            the edge x_i -> t_j is absent, 2 (a further tied
+\*                                              route of weight 3) or 5 (a route that is NOT shortest)
+\*   a_j -> t_j  (j = 1, 2)                     absent or 2 (a tied route whose first step is not new)
+\* Nodes in role order: s = 1, a_i = 1 + i, hub = nm + 2, x_i = nm + 2 + i, t_j = nm + nx + 2 + j.
+\* A parameter is <<nm, nx, xs, as>> with xs a sequence over x_1 t_1, x_1 t_2, x_2 t_1, .. of digits
+\* 0 / 1 / 2 (absent / 2 / 5) and as a sequence of two digits 0 / 1.  The whole space is enumerated.
+TieNMs == {2, 3}
+TieNXs == {1, 2}
+TieParams == UNION {UNION {{<<nm, nx, xs, as>> : xs \in [1 .. 2 * nx -> 0 .. 2], as \in [1 .. 2 -> 0 .. 1]}
+                            : nx \in TieNXs} : nm \in TieNMs}
+TieN(p) == p[1] + p[2] + 4
+TieW(p, u, v) ==
+    LET nm == p[1] nx == p[2] hub == nm + 2 t0 == nm + nx + 2
+    IN IF u = 1 /\ v \in 2 .. nm + 1 THEN 1                          \* s -> a_i
+       ELSE IF u \in 2 .. nm + 1 /\ v = hub THEN 1                   \* a_i -> hub
+       ELSE IF u = hub /\ v \in t0 + 1 .. t0 + 2 THEN 1               \* hub -> t_j
+       ELSE IF u = 1 /\ v \in hub + 1 .. hub + nx THEN 1              \* s -> x_i
+       ELSE IF u \in hub + 1 .. hub + nx /\ v \in t0 + 1 .. t0 + 2     \* x_i -> t_j
+            THEN <<0, 2, 5>>[1 + p[3][2 * (u - hub - 1) + (v - t0)]]
+       ELSE IF u \in 2 .. 3 /\ v = t0 + (u - 1) THEN 2 * p[4][u - 1]   \* a_j -> t_j
+       ELSE 0
+TieDigits(p) == LET ps == PairSeq(TieN(p))
+                IN [j \in 1 .. Len(ps) |->
+                      LET w == TieW(p, ps[j][1], ps[j][2])
+                      IN IF w = 0 THEN 0 ELSE CHOOSE c \in 1 .. Len(WSeq) : WSeq[c] - WOff = w]
+\* node orders in which the harness lays the nodes out in containers with a deterministic node order
+\* (model node m gets the position o[m]): role order, its reverse, two rotations
+TieOrders(k) == {[m \in 1 .. k |-> m], [m \in 1 .. k |-> k + 1 - m],
+                 [m \in 1 .. k |-> ((m + 2) % k) + 1], [m \in 1 .. k |-> ((k - m + 4) % k) + 1]}
+
+Init == IF Mode = "ties"
+        THEN \E p \in TieParams : nn = TieN(p) /\ dg = TieDigits(p)
+        ELSE IF Mode = "all"
         THEN /\ nn \in MinN .. MaxN
              /\ dg \in [1 .. NPairs(nn) -> 0 .. B - 1]
              /\ DigitSum(dg) % NShards = Shard
@@ -173,6 +211,16 @@ YenCount(aw, k, c) ==
     ELSE LET within == Cardinality({i \in 1 .. Len(aw) : c = 99 \/ aw[i] <= aw[1] + c})
          IN IF k < 0 \/ within < k THEN within ELSE k
 
+\* Queries about the returned tree itself.  Shortest.From / ShortestAlts.From: "the starting node
+\* of the paths held by" the tree - the source handed to the routine, for every query id (also the
+\* id that is not a node of the graph: the tree is empty then, its source is still that id).
+SourceOf(s) == s
+\* s = t on an id a that is not a node of the graph: the documentation leaves the answer open
+\* (AllShortest.Weight: +inf for absent ids; Between / AllBetween / AllBetweenFunc: "a shortest path
+\* from u to v").  The legal answers are the trivial path <<a>> of weight 0 - whose only node must
+\* carry the id a - and "no path, +inf"; nothing else is a path from a to a.
+SelfAbsent(a) == {[p |-> <<a>>, w |-> Fin(0)], [p |-> <<>>, w |-> PInf]}
+
 PathRec(S) == {[p |-> p, w |-> PW(E, p)] : p \in S}
 AnyNegEdge == \E q \in DOMAIN E : E[q] < 0
 
@@ -190,6 +238,8 @@ EmitCase ==
          anyneg  |-> T.nc # {},
          negedgefrom |-> [s \in 1 .. nn |-> \E q \in DOMAIN E : E[q] < 0 /\ q[1] \in T.ra[s]],
          anynegedge  |-> AnyNegEdge,
+         src   |-> [s \in Q |-> SourceOf(s)],
+         selfabsent |-> SelfAbsent(nn + 1),
          sink  |-> [s \in 1 .. nn |-> Succ(E, s) = {}],
          zcyc  |-> \E x, y \in 1 .. nn : /\ x # y /\ IsFin(T.tw[x][y]) /\ IsFin(T.tw[y][x])
                                           /\ T.tw[x][y][2] + T.tw[y][x][2] = 0,
@@ -197,7 +247,8 @@ EmitCase ==
          simple |-> [s \in 1 .. nn |-> [t \in 1 .. nn |-> PathRec(SimplePathsT(T, s, t))]],
          uniq  |-> [s \in 1 .. nn |-> [t \in 1 .. nn |-> UniqueFlag(T, s, t)]],
          aw    |-> aw,
-         yen   |-> IF AnyNegEdge THEN {}
+         orders |-> IF Mode = "ties" THEN TieOrders(nn) ELSE {},
+         yen   |-> IF AnyNegEdge \/ Mode = "ties" THEN {}
                    ELSE {[s |-> s, t |-> t, k |-> k, c |-> c, cnt |-> YenCount(aw[s][t], k, c)] :
                            s \in 1 .. nn, t \in 1 .. nn, k \in YenKs, c \in YenCosts}]))
 =============================================================================
